@@ -103,30 +103,31 @@ def real_cases(ctx, rng, nkeys):
     pkcache = {}
     for i, (d, z) in enumerate(pairs):
         pk = pkcache.setdefault(d, pecc.PrivateKey(d))
+        # the certified HMAC rows the specification's RFC 6979 walk needs are produced here with the standard library (not by
+        # recording what the library happened to call): K/V updates of the HMAC-DRBG until a candidate lies in [1, n-1]
+        zred = z - N256 if z >= N256 else z
+        xb, hb = d.to_bytes(32, "big"), zred.to_bytes(32, "big")
         calls = []
-        orig_new = pecc.hmac.new
 
-        class Rec:
-            def __init__(self, key, msg, dig):
-                self.key, self.msg, self.h = bytes(key), bytes(msg), orig_new(key, msg, dig)
-
-            def digest(self):
-                calls.append((self.key, self.msg))
-                return self.h.digest()
-        ks = []
-        orig_k = pecc.PrivateKey.deterministic_k
-
-        def wrapped_k(self, zz):
-            kk = orig_k(self, zz)
-            ks.append(kk)
-            return kk
-        pecc.hmac.new = lambda key, msg, dig: Rec(key, msg, dig)
-        pecc.PrivateKey.deterministic_k = wrapped_k
-        try:
-            res = outcome(pk.sign, z)
-        finally:
-            pecc.hmac.new = orig_new
-            pecc.PrivateKey.deterministic_k = orig_k
+        def hm(key, msg):
+            calls.append((key, msg))
+            return pyhmac.new(key, msg, hashlib.sha256).digest()
+        K, V = bytes(32), b"\x01" * 32
+        K = hm(K, V + b"\x00" + xb + hb)
+        V = hm(K, V)
+        K = hm(K, V + b"\x01" + xb + hb)
+        V = hm(K, V)
+        kh = None
+        for _ in range(4):
+            V = hm(K, V)
+            cand = int.from_bytes(V, "big")
+            if 1 <= cand < N256:
+                kh = cand
+                break
+            K = hm(K, V + b"\x00")
+            V = hm(K, V)
+        res = outcome(pk.sign, z)
+        ks = [kh] if kh is not None else []
         zcls = "z=0" if z == 0 else "z=n" if z == N256 else "z>n" if z > N256 else "z<n"
         ctx.nontriv(("real-sign", zcls, d in secrets))
         if res[0] != "ok" or not ks:
